@@ -1,5 +1,5 @@
 /* C02 harness: every way of asking one topological question, printed for one pair per input line.
-   input :  <seed>|<WKT A>|<WKT B>|<pattern1,pattern2,...>
+   input :  <seed>|<WKT A>|<WKT B>|<pattern1,pattern2,...>[|<primer WKT>;<primer WKT>...]
    output:  key=value tokens (chars '0','1','2'=error, 'x' = not applicable), or INVALID / PARSE. */
 #include <geos_c.h>
 #include <stdio.h>
@@ -27,6 +27,7 @@ int main(void) {
         char* p1 = strchr(line, '|'); if (!p1) { puts("PARSE"); fflush(stdout); continue; } *p1++ = 0;
         char* p2 = strchr(p1, '|'); if (!p2) { puts("PARSE"); fflush(stdout); continue; } *p2++ = 0;
         char* p3 = strchr(p2, '|'); if (p3) *p3++ = 0;
+        char* p4 = p3 ? strchr(p3, '|') : NULL; if (p4) *p4++ = 0;      /* optional 5th field: primer geometries, ';' separated */
         unsigned seed = (unsigned)strtoul(line, NULL, 10);
         GEOSGeometry* A = GEOSGeomFromWKT_r(h, p1); GEOSGeometry* B = GEOSGeomFromWKT_r(h, p2);
         if (!A || !B) { puts("PARSE"); fflush(stdout); if (A) GEOSGeom_destroy_r(h, A); if (B) GEOSGeom_destroy_r(h, B); continue; }
@@ -34,6 +35,22 @@ int main(void) {
         char* R = GEOSRelate_r(h, A, B); char* RT = GEOSRelate_r(h, B, A);
         const GEOSPreparedGeometry* PA = GEOSPrepare_r(h, A); const GEOSPreparedGeometry* PB = GEOSPrepare_r(h, B);
         printf("R=%s RT=%s", R ? R : "ERR", RT ? RT : "ERR");
+        /* primers: the SAME prepared geometries first answer a (seed-chosen, self-noding) predicate against OTHER geometries, each
+           compared with the unprepared call; whatever the prepared object cached for them must not leak into the answers for B below */
+        if (p4 && *p4) {
+            int nprime = 0, primebad = 0; char* sv = NULL;
+            for (char* t = strtok_r(p4, ";", &sv); t; t = strtok_r(NULL, ";", &sv)) {
+                GEOSGeometry* P = GEOSGeomFromWKT_r(h, t);
+                if (!P) continue;
+                if (GEOSisValid_r(h, P) == 1) {
+                    seed = seed * 1103515245u + 12345u; int i = 2 + (int)((seed >> 16) % 8u); if (!prep[i]) i = 6;
+                    char a1 = prep[i](h, PA, P), b1 = plain[i](h, A, P), a2 = prep[i](h, PB, P), b2 = plain[i](h, B, P);
+                    nprime++; if (a1 != b1 || a2 != b2) primebad++;
+                }
+                GEOSGeom_destroy_r(h, P);
+            }
+            printf(" prime=%d/%d", primebad, nprime);
+        }
         /* prepared predicates in a seed-dependent order, on one reused prepared geometry */
         char pa[10], pb[10]; int order[10];
         for (int i = 0; i < 10; i++) order[i] = i;
